@@ -149,7 +149,7 @@ func init() {
 		s.Transform, s.Entropy = "LZ", "HUFFMAN"
 		add(s)
 		if c.Thorough() {
-			add(decSpec("dec j3 valid 6blk+tail (3 batches)", 3, 6, 100, "sleep", -1))
+			add(decSpec("dec j3 valid 6blk+tail (3 batches) state-caching", 3, 6, 100, "cache", -1))
 			add(decSpec("dec j4 valid 3blk+tail plain DFS <=1 preemption", 4, 3, 100, "bounded", 1))
 			add(decSpec("dec j2 valid 7blk+tail (4 batches)", 2, 7, 100, "sleep", -1))
 			s = decSpec("dec j3 BWT/ANS0 valid 3blk+tail", 3, 3, 100, "sleep", -1)
